@@ -131,6 +131,10 @@ func ruleR05_1(w *World, r *Report) {
 			r.OK(cons, u.Pos(s.c.Pos()), "ordered and error-gated")
 		}
 	}
+	// once the checkpoint has moved past the pulled operations they are applied, whatever the steps in between report
+	reached, _ := mustReach(syn, func(in ssa.Instruction) bool { return in == ssa.Instruction(recv) }, false)
+	r.Check(reached, "WiredDatatype.ApplyPushPullPack/pulled operations applied after the checkpoint moved", u.Pos(recv.Pos()), "ReceiveRemoteModelOperations on every path after syncCheckPoint",
+		"after syncCheckPoint there is a path that does not apply the pulled operations (for instance when updateStateOfDatatype reports an error): the checkpoint already acknowledges them, so the replica never receives them again")
 }
 
 // R05.2 checkpoint never moves backwards
